@@ -23,8 +23,8 @@ CHECKS = {
                 text="Concolic execution of the real expand_bfs/expand_dfs over a symbolic truth table: z3 decides, for every path class, that the produced diagram equals the hierarchy of percolated trap spaces for all networks of the class; exhaustive for all 2-variable networks, time-boxed (quick) / exhaustive (thorough) for all 3-variable networks. Published models (checks/c02_models.py): for the root and the deepest expanded nodes of size-limited BFS/DFS runs z3 decides closure under percolation (least fixed point over all states) and that the listed stable motifs are trap spaces, maximal, percolate to their child, none missing (all subspaces of the validated Petri net). Also with a symbolic max_motifs_per_node (limit error or exact diagram)."),
     "C03": dict(engine="E-CAB", category="model_checking", design_ref="§3.2, §6 C03", technique=T_CAB + "; per-model SMT validation on the published models (z3 over all subspaces of the validated Petri net: reported minimal trap spaces closed, minimal, none missing)",
                 text="Published models (5-321 variables): for every complete strategy run z3 decides exactly-the-minimal-trap-spaces over all subspaces (checks/models_tv.py). Small symbolic networks: Every completing strategy (bfs, dfs, minimal-space +-skip, attractor-seed, block with all flag combinations, source-SCC) and limited strategies completed by skipping, optionally after a plain prefix call with symbolic limits: z3 decides per path class that the expanded leaves are exactly the inclusion-minimal trap spaces. U2 exhaustive for single strategies; D3/B21 (quick) and U3/B22/CH4/S2C2 (thorough) time-boxed."),
-    "C04": dict(engine="E-CAB", category="model_checking", design_ref="§3.2, §6 C04", technique=T_CAB + "; per-model SMT validation on the published models (z3 over all states / all subspaces of the validated Petri net)",
-                text="Histories of plain expansion calls with symbolic start nodes, limits and targets; after every call the partial-diagram invariant is decided for the whole path class, and the continued full expansion is decided against the C02 hierarchy and compared with a fresh diagram. Published models (checks/c02_models.py): four canned histories of plain calls with limits and start nodes; afterwards every expanded node is decided as in C02, no space occurs twice, unexpanded nodes have no successors."),
+    "C04": dict(engine="E-CAB", category="model_checking", design_ref="§3.2, §6 C04", technique=T_CAB + "; per-model SMT validation on the published models (z3 over all states / all subspaces of the validated Petri net); space_unique_key translated from its source (AST) into z3 bit-vectors and decided injective for N up to 40/96 variables",
+                text="Histories of plain expansion calls with symbolic start nodes, limits and targets; after every call the partial-diagram invariant is decided for the whole path class, and the continued full expansion is decided against the C02 hierarchy and compared with a fresh diagram. Published models (checks/c02_models.py): four canned histories of plain calls with limits and start nodes; afterwards every expanded node is decided as in C02, no space occurs twice, unexpanded nodes have no successors. Key unit (checks/c04_key_unit.py): the node key function is decided injective and item-order independent over all spaces of N-variable networks (N=8,31,40 quick; up to 96 thorough)."),
     "C06": dict(engine="E-CAB", category="model_checking", design_ref="§6 C06", technique=T_CAB + "; per-model SMT validation on the published models (z3: motif chain over the validated Petri net, override LDOI as least fixed point over all states, minimal trap spaces inside the final space enumerated by SAT)",
                 text="Real succession_control over a symbolic network with symbolic target, strategy, driver bound, forbidden set and skip_feedforward flag, on fresh and pre-expanded/skipped/block-expanded diagrams: for every intervention flagged successful z3 decides nesting of the trap spaces, LDOI containment of the motif, and - over the overridden network's REACH/ATTR - that every attractor reachable from the previous trap space carries the motif; the final space's minimal trap spaces lie in the target. Published models (checks/c06_models.py): successful interventions towards minimal trap spaces: motif chain closed and nested (validated Petri net), every override's domain of influence contains the motif (z3 least fixed point over all states), all minimal trap spaces inside the final space (enumerated by SAT) lie in the target; the attractor-reachability clause is decided only on the symbolic families."),
     "C07": dict(engine="E-CAB", category="model_checking", design_ref="§6 C07", technique=T_CAB,
